@@ -155,6 +155,23 @@ def hostile_programs(rng):
     prog("derived-before-base", "    D d = new D();\n    echo(d.f());",
          "class D extends B {\n    public constructor() -> D {\n        super();\n        return this;\n    }\n    public function f() -> int {\n        return 2;\n    }\n}\n"
          "class B {\n    public constructor() -> B = default;\n}\n")
+    for qual in ("", "geometry.", "a.b."):
+        for nf in (1, 3):
+            fields = "".join("    public int f%d = %d;\n" % (i, i + 4) for i in range(nf))
+            prog("derived-before-base-fields:%s%d" % (qual, nf), "    D d = new D();\n    echo(d.f0 + d.own);\n    D e = new D();\n    e.f0 = 9;\n    echo(d.f0 + e.f0);",
+                 "class D extends %sB {\n    public int own = 1;\n    public constructor() -> D {\n        super();\n        return this;\n    }\n}\n"
+                 "class B {\n%s    public constructor() -> B = default;\n}\n" % (qual, fields))
+    prog("derived-before-generic-before-base", "    D d = new D();\n    echo(d.y);\n    echo(d.own);",
+         "class D extends G<int> {\n    public int own = 1;\n    public constructor() -> D {\n        super();\n        return this;\n    }\n}\n"
+         "class G<T> extends B {\n    public T t;\n    public constructor() -> G<T> {\n        super();\n        return this;\n    }\n}\n"
+         "class B {\n    public int x = 5;\n    public int y = 7;\n    public constructor() -> B {\n        return this;\n    }\n}\n")
+    # heaps the collector has to walk: reachable cycles, long chains and object arrays alive while
+    # allocation pressure (> 16 allocations) triggers collections
+    ring = ("class R {\n    public R next;\n    public R prev;\n    public int v;\n    public constructor(int v) -> R {\n        this.v = v;\n        return this;\n    }\n}\n")
+    prog("live-cycle-under-pressure", "    R a = new R(1);\n    R b = new R(2);\n    a.next = b;\n    b.next = a;\n    a.prev = b;\n    b.prev = a;\n"
+         "    int s = 0;\n    for (int i = 0; i < 40; i = i + 1) {\n        R t = new R(i);\n        t.next = t;\n        s = s + t.v;\n    }\n    echo(s + a.next.v + b.prev.v);", ring)
+    prog("live-self-cycle-destroy", "    R a = new R(1);\n    a.next = a;\n    R g = new R(2);\n    destroy g;\n    for (int i = 0; i < 20; i = i + 1) {\n        R t = new R(i);\n    }\n    echo(a.next.next.v);", ring)
+    prog("long-chain-under-pressure", "    R head = new R(0);\n    R cur = head;\n    for (int i = 1; i < 300; i = i + 1) {\n        cur.next = new R(i);\n        cur.next.prev = cur;\n        cur = cur.next;\n    }\n    echo(cur.v + head.next.v);", ring)
     # qubits
     prog("qubits-12", "    qubit[12] r;\n    for (int i = 0; i < 12; i = i + 1) {\n        h(r[i]);\n    }\n    cx(r[0], r[11]);\n    measure r;\n    echo(1);")
     prog("qubit-index-oob", "    qubit[2] r;\n    int n = 2;\n    h(r[n]);")
@@ -316,6 +333,14 @@ def run(ctx):
         if seen[k] % stride[k] == 0:
             seeds.append((tag, src, env))
     jobs += mutated_jobs(ctx, seeds, ctx.n(6, 24))
+
+    # a third of the programs also run with a collection forced at every statement boundary: the
+    # collector's own walks (mark, sweep, audit) are code an accepted program can crash in
+    extra = []
+    for n, (tag, src, case, env) in enumerate(jobs):
+        if n % 3 == 0 and case["kind"] != "edited":
+            extra.append((tag + "+gc-all", src, dict(case, gc="all"), dict(env, BLOCH_VERIF_GC="all+natural")))
+    jobs += extra
 
     def one(job):
         tag, src, case, env = job
